@@ -336,6 +336,39 @@ static void get_cstate(cstate *c)
 }
 static void mon_tunw(int proc, const unsigned char *data, int len, int matched) { (void)data; (void)len; (void)matched; if (proc == 1) { tunw_count++; xp_count(K_TUNW, 1); } }
 
+/* pairs: an unmatched answer (foreign DNS id) whose decoded payload starts with one of the bytes the client's decoders
+ * dispatch on, then the answer under test replaced by one of the menu's degenerate (empty-content) items: what the
+ * first datagram left in the client's buffers must not matter to how the second is handled.  One pair = one deviation. */
+static const char PAIR_FIRST[] = "hHtTsSuUvVrR";
+#define NPAIRFIRST 12
+static int SEC[64], nsec;
+static void find_second_items(void)
+{
+	static const char *const KEY[] = { "zero-length strings", "first string has length 0", "RDLENGTH 0 ", "RDLENGTH 1 ", "'empty payload'", "header count 1 set to 0", "with RCODE 0 and ANCOUNT 0", "truncated to 12 of", NULL };
+	nsec = 0;
+	for (int i = 0; i < nmenu && nsec < 64; i++) for (int k = 0; KEY[k]; k++) if (strstr(MENU[i].desc, KEY[k])) { SEC[nsec++] = i; break; }
+}
+static void deliver_to_client(const unsigned char *data, int len);
+static int server_written(unsigned char *out, const unsigned char *payload, int plen, char downenc);
+static void do_pair(int p, int d, char de, int replay)
+{
+	static unsigned char pl[64], out[70000];
+	int first = PAIR_FIRST[p / nsec], sec = SEC[p % nsec];
+	pl[0] = first; pl[1] = (3 << 5) | 1; for (int k = 2; k < 42; k++) pl[k] = 'A' + k % 26;
+	int n = server_written(out, pl, 42, de);
+	snprintf(cur_desc, sizeof cur_desc, "%s, before answer #%d an unmatched answer (foreign DNS id) whose payload starts with '%c' is delivered, then the answer is replaced by: %s", CELLS[cur_cell].name, answer_no, first, MENU[sec].desc);
+	if (replay) printf("replay: %s\n", cur_desc);
+	if (n > 0) {
+		int nid = ((out[0] << 8) | out[1]) ^ 0x5a5a;
+		while (id_is_recent(nid)) nid = (nid + 1) & 0xffff;
+		out[0] = nid >> 8; out[1] = nid;
+		deliver_to_client(out, n);
+		vw_run_quiescent(0);
+	}
+	deliver_to_client(MENU[sec].d, MENU[sec].len);
+	vw_dgram_free(d);
+}
+
 static void my_on_send(int d)
 {
 	vw_dgram *g = &W.dg[d];
@@ -387,14 +420,15 @@ static void on_callback(int slot, int b)
 	if (!in_child && !xp_expired()) {
 		int israw = g->len >= 3 && g->data[0] == 0x10 && g->data[1] == 0xd1 && g->data[2] == 0x9e;
 		char de = s_w_users()[0].downenc ? s_w_users()[0].downenc : 'T';
-		if (israw) raw_menu(g->data, g->len); else build_menu(g->data, g->len, de);
-		for (int i = cur_part; i < nmenu + (israw ? 0 : NPRE + NTRAIN); i += NPART) {
+		if (israw) { raw_menu(g->data, g->len); nsec = 0; } else { build_menu(g->data, g->len, de); find_second_items(); }
+		for (int i = cur_part; i < nmenu + (israw ? 0 : NPRE + NTRAIN + NPAIRFIRST * nsec); i += NPART) {
 			if (getenv("C06_FILTER") && (i >= nmenu || !strstr(MENU[i].desc, getenv("C06_FILTER")))) continue;      /* debugging aid: only matching menu items */
 			if (xp_fork_wait() != 0) continue;
 			/* child */
 			in_child = 1;
 			XC.path[0].cp = answer_no; XC.path[0].alt = i; XC.npath = 1;
 			hc_cpu_alarm(60);
+			if (i >= nmenu + NPRE + NTRAIN) { xp_count(K_SUBST, 1); do_pair(i - nmenu - NPRE - NTRAIN, d, de, 0); return; }
 			if (i >= nmenu + NPRE) {
 				int t = i - nmenu - NPRE;
 				train_left = TRAIN[t].n; train_body = TRAIN[t].body; train_frag = 0; train_seq = (ca_w_inpkt()->seqno + 1) & 7;
@@ -442,10 +476,11 @@ static void on_callback(int slot, int b)
 	if (XC.replay && !in_child && XC.npath && XC.path[0].cp == answer_no) {
 		int israw = g->len >= 3 && g->data[0] == 0x10 && g->data[1] == 0xd1 && g->data[2] == 0x9e;
 		char de = s_w_users()[0].downenc ? s_w_users()[0].downenc : 'T';
-		if (israw) raw_menu(g->data, g->len); else build_menu(g->data, g->len, de);
+		if (israw) { raw_menu(g->data, g->len); nsec = 0; } else { build_menu(g->data, g->len, de); find_second_items(); }
 		int i = XC.path[0].alt;
-		if (i >= nmenu + NPRE + NTRAIN) { dprintf(1, "HARNESS-ERROR replay menu item out of range\n"); _exit(2); }
+		if (i >= nmenu + NPRE + NTRAIN + NPAIRFIRST * nsec) { dprintf(1, "HARNESS-ERROR replay menu item out of range\n"); _exit(2); }
 		in_child = 1;
+		if (i >= nmenu + NPRE + NTRAIN) { do_pair(i - nmenu - NPRE - NTRAIN, d, de, 1); return; }
 		if (i >= nmenu + NPRE) {
 			int t = i - nmenu - NPRE;
 			train_left = TRAIN[t].n; train_body = TRAIN[t].body; train_frag = 0; train_seq = (ca_w_inpkt()->seqno + 1) & 7;
